@@ -14,6 +14,10 @@ import Qfx.Drv.Valid
 import Qfx.Drv.ValidMon
 import Qfx.Drv.Frame
 import Qfx.Drv.FrameMon
+import Qfx.Drv.Store
+import Qfx.Drv.StoreMon
+import Qfx.Drv.Crash
+import Qfx.Drv.CrashMon
 namespace Qfx.Drv
 
 def families : List (String × Family) :=
@@ -25,6 +29,8 @@ def families : List (String × Family) :=
   , ("dict", dictFamily), ("dict-mon", dictMonFamily)
   , ("valid", validFamily), ("valid-mon", validMonFamily)
   , ("frame", frameFamily), ("frame-mon", frameMonFamily)
+  , ("store", storeFamily), ("store-mon", storeMonFamily)
+  , ("crash", crashFamily), ("crash-mon", crashMonFamily)
   ]
 
 end Qfx.Drv
